@@ -9,7 +9,11 @@ import "verif/harness/pbt"
 // the one Conn - every ordered pair of different calls (first message with one, second with the
 // other, the read after the last with the first again), every plan without fault, and every fault
 // position under the plans "whole stream in one segment" and "every octet alone". The finite space
-// is stated by the loops below.
+// is stated by the loops below. Round 10: a message, a frame of k = 0..11 octets (too short for a DNS
+// header, but a frame all the same), another message - every k, every reading call for the short frame
+// times every reading call for the messages around it, every plan without fault, every EOF position
+// with the stream delivered whole (client side); the same three frames through the server's read
+// path under every plan (thorough tier).
 
 var enumSizes = [][2]int{{12, 12}, {12, 13}, {13, 32}, {33, 12}, {19, 31}}
 
@@ -72,6 +76,47 @@ func eachMixedRead(emit func(Framing)) {
 	}
 }
 
+// eachShortFrame: sizes (12, k, 13) for k = 0..11. Client side: APIs [x, y] - the messages are taken with
+// x, the short frame is met with y, the read after the last message is y again.
+func eachShortFrame(dir string, emit func(Framing)) {
+	for k := 0; k < 12; k++ {
+		total := 2 + 12 + 2 + k + 2 + 13
+		plans := [][]int{nil, {1}}
+		for j := 1; j < total; j++ {
+			plans = append(plans, []int{j, 0})
+		}
+		for seed := byte(0); seed < 4; seed++ { // the four kinds of content of runtBody
+			if dir == "server" {
+				for _, api := range []string{"Write", "WriteMsg"} {
+					for _, plan := range plans {
+						emit(Framing{Dir: dir, API: api, Sizes: []int{12, k, 13}, Seeds: []byte{3, seed, 200}, OneWrite: true, Chunks: plan, ReplySizes: []int{12, 33}})
+					}
+				}
+				continue
+			}
+			for _, x := range readAPIs {
+				for _, y := range readAPIs {
+					for pi, plan := range plans {
+						if seed != 3 && pi > 1 {
+							continue // every split with the content that reads as lengths; whole / octet by octet with every content
+						}
+						base := Framing{Dir: dir, API: "mixed", APIs: []string{x, y}, Sizes: []int{12, k, 13}, Seeds: []byte{3, seed, 200}, OneWrite: true, Chunks: plan}
+						emit(base)
+						if pi > 0 || seed != 3 {
+							continue // every EOF position with the stream delivered whole
+						}
+						for at := 0; at <= total; at++ {
+							c := base
+							c.Fault, c.FaultAt, c.FaultSide = "eof", at, "read"
+							emit(c)
+						}
+					}
+				}
+			}
+		}
+	}
+}
+
 func init() {
 	apis := map[string][]string{
 		"client-read": {"ReadMsg", "ReadMsgHeader", "ReadMsgHeaderHdr", "Read"},
@@ -81,7 +126,11 @@ func init() {
 		Each: func(emit func(Framing)) {
 			eachSmallFraming([]string{"client-read"}, apis, emit)
 			eachMixedRead(emit)
+			eachShortFrame("client-read", emit)
 		}})
 	pbt.RegisterEnum(pbt.Enum[Framing]{Name: "framing-enum-server", Tiers: "thorough", Exhaustive: true, Check: checkFraming,
-		Each: func(emit func(Framing)) { eachSmallFraming([]string{"server"}, apis, emit) }})
+		Each: func(emit func(Framing)) {
+			eachSmallFraming([]string{"server"}, apis, emit)
+			eachShortFrame("server", emit)
+		}})
 }
